@@ -207,6 +207,27 @@ def c14(ck):
         return
     ck.exhaustive = True
     ck.trace("ctrl", "ctrl", ["-n", q(ck, 1500, 30000)], "TraceCodec", "TraceCodec.cfg", ["InvC14", "InvC03"])
+    if ck.violations:
+        return
+    # the messages in use: the HSMS session protocol (two entities, select / deselect / linktest / separate / reject / data)
+    ck.model("HsmsSession", "HsmsSession", "HsmsSession_%s.cfg" % ck.tier, timeout=q(ck, 300, 1800))
+    r = ck.tlc("HsmsSession", "HsmsSession_sim.cfg", workers=1, simulate="num=%d" % q(ck, 120, 1500),
+               extra=["-depth", "14", "-seed", str(ck.seed)])
+    if r.error and not r.cases:
+        raise ToolError("HsmsSession simulation failed: %s" % r.error)
+    seen, behaviours = set(), []
+    for b in r.cases:
+        k = json.dumps(b, sort_keys=True)
+        if k not in seen:
+            seen.add(k)
+            behaviours.append(b)
+    ck.states += r.distinct
+    ck.transitions += r.generated
+    btable = write_cases(ck, behaviours[: q(ck, 800, 8000)], "behaviours.ndjson")
+    ev = ck.trace("session", "session", ["-in", btable], "TraceCodec", "TraceCodec.cfg", ["InvC14"],
+                  nontrivial=lambda e: e.get("act") == "Recv")
+    ck.replayed += min(len(behaviours), q(ck, 800, 8000))
+    ck.extra["session_behaviours_replayed"] = min(len(behaviours), q(ck, 800, 8000))
     ck.assumptions += ["the harness compares the two session-id bytes with its loop variable when summarising the session-id sweep"]
 
 
